@@ -1,9 +1,14 @@
 import TongoProofs.Lemmas.TlRoundtrip
 /-! Property C09 — schema compilers emit Go code that implements the schema.
 
-The theorems below are about the *schema-level semantics* `Tl.encode` / `Tl.decode` (lean/TongoModel/Tl/Codec.lean) for
-EVERY schema of the subset, not about `tl/parser/generator.go`: the generator is related to this semantics by
-translation validation over sampled schemas (harness `c09.go`: generate, compile, run, compare with the driver). -/
+The theorems below are about the *schema-level semantics* `Tl.encode` / `Tl.decode` (lean/TongoModel/Tl/Codec.lean,
+written for this verification: the SPECIFICATION) for EVERY schema of the subset. They show that the specification is
+sane (decoder inverts encoder with arbitrary trailing bytes, encodings are self-delimiting, `encode` is defined exactly on
+the typed values) and spell its layout out. NONE of them mentions `tl/parser/generator.go` or its output: for arbitrary
+schemas the generator is related to this semantics only by translation validation over sampled schemas (harness
+`c09.go`: generate, compile, run, compare with the driver). For the ONE schema shipped with the repository the
+generator's output (liteclient/generated.go, equal to the regenerated text by the oracle `go.regen.liteclient`) IS the
+subject of a theorem: `C10.liteapi_steps_eq_schema` over the bindings extracted by translator X7. -/
 namespace Tongo.C09
 open Tongo Tongo.Tl
 
@@ -84,7 +89,14 @@ theorem tl_encode_injective (S : Schema) (hwf : WFSchema S) (t : Ty) (v₁ v₂ 
     (h₁ : encode S t v₁ = some bs) (h₂ : encode S t v₂ = some bs) : v₁ = v₂ :=
   (tl_prefix_free S hwf t v₁ v₂ bs bs [] [] h₁ h₂ rfl).1
 
-/-! ### Layout clauses -/
+/-! ### Layout clauses
+
+Two kinds of statements. `tl_spec_builtin`, `tl_spec_length_escape`, `tl_spec_composite` and the `encode` conjuncts of
+`tl_spec_padding` are RESTATEMENTS of the defining equations of `Tl.encode` in byte terms: they make the specification
+reviewable against the TL documentation clause by clause and have no content beyond the definition. `tl_layout_le`,
+`tl_layout_optional`, `tl_layout_items`, `tl_layout_vector` and the padding characterisation are proved by induction /
+arithmetic. That the Go code produces these bytes is NOT stated here: see `C10.liteapi_steps_eq_schema` (generated
+bindings, extracted) and `C10.gen_EncodeLength` (length prefix, extracted). -/
 
 /-- little-endian integers: `w` bytes, byte `i` is digit `i` in base 256 -/
 theorem tl_layout_le (w n : Nat) :
@@ -100,8 +112,8 @@ theorem tl_layout_le (w n : Nat) :
       simp only [le, List.getElem?_cons_succ, ih (n / 256) i (by omega), Nat.div_div_eq_div_mul, Nat.pow_succ,
         Nat.mul_comm]
 
-/-- `# int` are 4 bytes, `long` 8 bytes, `int256` the 32 bytes themselves, `Bool` the two magic ids, `true` nothing -/
-theorem tl_layout_builtin (S : Schema) :
+/-- (restatement of the definition) `# int` are 4 bytes, `long` 8 bytes, `int256` the 32 bytes themselves, `Bool` the two magic ids, `true` nothing -/
+theorem tl_spec_builtin (S : Schema) :
     (∀ n, n < 2 ^ 32 → encode S .nat (.num n) = some (le 4 n) ∧ encode S .int (.num n) = some (le 4 n)) ∧
     (∀ n, n < 2 ^ 64 → encode S .long (.num n) = some (le 8 n)) ∧
     (∀ bs : Bytes, bs.length = 32 → encode S .int256 (.raw bs) = some bs) ∧
@@ -113,8 +125,8 @@ theorem tl_layout_builtin (S : Schema) :
   · simp [encode, boolFalseId, le]
   · simp [encode]
 
-/-- the length prefix: one byte below 254, the escape byte 254 and three little-endian bytes from 254 on -/
-theorem tl_layout_length_escape :
+/-- (restatement of the definition, the three little-endian bytes spelled out) the length prefix: one byte below 254, the escape byte 254 and three little-endian bytes from 254 on -/
+theorem tl_spec_length_escape :
     (∀ n, n < 254 → encLen n = [UInt8.ofNat n]) ∧
     (∀ n, 254 ≤ n → encLen n =
       [254, UInt8.ofNat (n % 256), UInt8.ofNat (n / 256 % 256), UInt8.ofNat (n / 65536 % 256)]) := by
@@ -122,18 +134,27 @@ theorem tl_layout_length_escape :
   rw [encLen_long n (by omega)]
   simp [le, Nat.div_div_eq_div_mul]
 
-/-- byte strings: prefix, data, then exactly `(4 − n mod 4) mod 4` zero bytes (n = prefix + data length); the field is
-a multiple of four bytes long -/
-theorem tl_layout_padding (bs : Bytes) :
-    encBytes bs = encLen bs.length ++ bs ++
-      List.replicate ((4 - ((encLen bs.length).length + bs.length) % 4) % 4) 0 ∧
+/-- byte strings: prefix, data, then zero bytes; the padding is characterised against the bytes: the field is a multiple of
+four bytes long, and ANY number `k < 4` of zero bytes that makes prefix + data + padding a multiple of four IS the
+padding (so: the least such number, fewer than four). The last two conjuncts restate the definition of `encode` on
+`bytes`/`string` (2²⁴ bytes and more have no encoding). -/
+theorem tl_spec_padding (bs : Bytes) :
     (encBytes bs).length % 4 = 0 ∧
+    (∃ k, k < 4 ∧ encBytes bs = encLen bs.length ++ bs ++ List.replicate k 0) ∧
+    (∀ k, k < 4 → (encLen bs.length ++ bs ++ List.replicate k (0 : UInt8)).length % 4 = 0 →
+      encBytes bs = encLen bs.length ++ bs ++ List.replicate k 0) ∧
     (∀ S : Schema, bs.length < 2 ^ 24 → encode S .bytes (.raw bs) = some (encBytes bs) ∧
       encode S .string (.raw bs) = some (encBytes bs)) ∧
     (∀ S : Schema, 2 ^ 24 ≤ bs.length → encode S .bytes (.raw bs) = none) := by
-  refine ⟨rfl, ?_, fun S h => by simp [encode, h], fun S h => by simp [encode]; omega⟩
-  simp only [encBytes, padLen, List.length_append, List.length_replicate]
-  omega
+  refine ⟨?_, ⟨padLen ((encLen bs.length).length + bs.length), ?_, rfl⟩, ?_, fun S h => by simp [encode, h],
+    fun S h => by simp [encode]; omega⟩
+  · simp only [encBytes, padLen, List.length_append, List.length_replicate]
+    omega
+  · simp only [padLen]; omega
+  · intro k hk hlen
+    simp only [List.length_append, List.length_replicate] at hlen
+    have : k = padLen ((encLen bs.length).length + bs.length) := by simp only [padLen]; omega
+    rw [this]; rfl
 
 /-- conditional fields: with the flag field `flag` holding `m`, a field `name:flag.N?T` contributes no bytes and must
 be absent when bit `N` of `m` is clear, and is encoded like a plain field of type `T` when it is set — for every bit. -/
@@ -163,9 +184,9 @@ theorem tl_layout_flag_value (env : Env) (f : Field) (n : Nat) (ht : f.ty = .nat
     envGet? (pushEnv env f (.num n)) f.name = some n := by
   simp [pushEnv, ht, hc, envGet?]
 
-/-- bare reference = the fields; boxed reference = constructor id, little-endian, then the fields; vector = 32-bit
+/-- (restatement of the definition) bare reference = the fields; boxed reference = constructor id, little-endian, then the fields; vector = 32-bit
 count then the items; request = function id then the parameters -/
-theorem tl_layout_composite (S : Schema) :
+theorem tl_spec_composite (S : Schema) :
     (∀ c fs d, S.ctor? c = some d → encode S (.bare c) (.tuple fs) = encodeFields S d.fields [] fs) ∧
     (∀ t c fs d, S.ctorOf? t c = some d →
       encode S (.boxed t) (.sum c fs) = (encodeFields S d.fields [] fs).map (le 4 d.id ++ ·)) ∧
@@ -225,7 +246,7 @@ theorem tl_layout_facts (S : Schema) :
         f.cond = some (flag, bit) → envGet? env flag = some m →
         (encodeFields S (f :: fs) env (.absent :: vs) ≠ none → m.testBit bit = false) ∧
         (∀ v, v ≠ .absent → encodeFields S (f :: fs) env (v :: vs) ≠ none → m.testBit bit = true)) := by
-  refine ⟨tl_layout_le, tl_layout_length_escape, fun bs => ⟨(tl_layout_padding bs).1, (tl_layout_padding bs).2.1⟩, ?_⟩
+  refine ⟨tl_layout_le, tl_spec_length_escape, fun bs => ⟨rfl, (tl_spec_padding bs).1⟩, ?_⟩
   intro f fs env vs flag bit m hc hm
   have h := tl_layout_optional S f fs env vs flag bit m hc hm
   constructor
